@@ -90,12 +90,17 @@ func raceQuery(events []ssaexec.Event) (*term.Term, []*term.Term, string) {
 	}
 	var races []*term.Term
 	desc := ""
+	isAcc := func(k string) bool { return k == "access" || k == "read" || k == "write" }
 	for p, ea := range events {
-		if ea.Kind != "access" {
+		if !isAcc(ea.Kind) {
 			continue
 		}
 		for q, eb := range events {
-			if eb.Kind != "access" || eb.Obj != ea.Obj {
+			if !isAcc(eb.Kind) || eb.Obj != ea.Obj {
+				continue
+			}
+			// two reads never conflict ("access" = use of the generator, which mutates it)
+			if ea.Kind == "read" && eb.Kind == "read" {
 				continue
 			}
 			races = append(races, term.And(term.Not(hb(0, 1, p, q)), term.Not(hb(1, 0, q, p))))
